@@ -21,13 +21,19 @@ TextOf(ts, i, acc) ==
   ELSE LET sep == IF i > 1 /\ ts[i - 1] # "\n" /\ acc # <<>> THEN <<" ">> ELSE <<>>
        IN TextOf(ts, i + 1, acc \o sep \o TT!ModelChars(ts[i]))
 AllCases == ExprCases \cup StmtCases \cup AnnotCases
-GInit == \E cc \in AllCases : cs = cc /\ toks = TT!ToInput(TextOf(cc.toks, 1, <<>>))
-GSpec == GInit /\ [][UNCHANGED <<cs, toks, x>>]_<<cs, toks, x>> /\ x = 0
+(* one initial state per case family, one successor per case: TLC's workers then evaluate the cases in parallel *)
+VARIABLE picked
+Fams == { cc.fam : cc \in AllCases }
+Bucket(cc) == (Len(cc.toks) + Len(cc.sig)) % 12
+GInit == \E f \in Fams, bk \in 0..11 : cs = [fam |-> f, b |-> bk] /\ toks = <<>> /\ picked = FALSE
+GNext == /\ ~picked /\ picked' = TRUE /\ x' = x
+         /\ \E cc \in AllCases : cc.fam = cs.fam /\ Bucket(cc) = cs.b /\ cs' = cc /\ toks' = TT!ToInput(TextOf(cc.toks, 1, <<>>))
+GSpec == GInit /\ x = 0 /\ [][GNext]_<<cs, toks, x, picked>>
 
 (* known deviation (known finding C04: an assignment whose right-hand side is a binary expression is a syntax error) *)
 Dev_AssignBinaryRhs == cs.fam \in {"pairL@assign", "bin@assign"} \/ cs.sig = "stmt:assign:binary-rhs"
 ErrorEvents(p) == SelectSeq(p.ev, LAMBDA e : e.tag = "error")
-C04_Model ==
+C04_Model == picked =>
   LET p == G!Parsed IN
     /\ TT!LexErrors(TextOf(cs.toks, 1, <<>>)) = <<>>
     /\ G!ReturnsNormally(p) /\ G!ConsumesAll(p) /\ G!MarkersDischarged(p)
